@@ -155,6 +155,18 @@ Definition node_shift_run_stmt : Prop :=
   forall c gf ops r, 0 <= c -> gf_shift_ok c gf -> time_ok c r -> ops_ok c gf r ops ->
     rrun gf (shift_rnode c r) ops = (shift_rnode c (fst (rrun gf r ops)), snd (rrun gf r ops)).
 
-(* 32-bit build: the node-level statement only holds "within one millisecond" (statement 1: a timer armed at the sentinel value is
-   armed one millisecond later) and, for the heartbeat, relies on statement 5.  It is not stated as a theorem here; the metamorphic runs
-   of tools/p_C13.py cover the 32-bit build, classifying runs that arm a timer at the sentinel. *)
+(* Relation to two runs of the real library at different origins: a freshly constructed node (cold_node) at origin t0 + c is the
+   shifted cold node at t0 except for SyncOffset, which is 0 (not c) until Open() sets it.  SyncOffset is only read by
+   UpdateNextTime, so the two agree unless the heartbeat is configured before Open(): that is the finding `origin-hb-before-open`
+   of tools/p_C13.py (the heartbeat set to the default values before Open() is scheduled against the absolute clock).
+
+   32-bit build - documented partial, no theorem: the node-level statement holds only "within one millisecond" (statement 1: FromNow
+   stores 0 instead of the sentinel 0xFFFFFFFF, i.e. arms the timer one millisecond later; statement 2 bounds the effect), so a theorem
+   needs the hypothesis that no operation happens at a clock value now with (now + d) mod 2^32 = 0xFFFFFFFF for one of the delays d
+   the library arms (0, 50, 100, 200, 250, 187 + 8 s, 187 + 10 s for addresses s), at either origin.  It also needs two shift amounts:
+   c for the millisecond clock (32-bit schedulers and slot stamps move by c mod 2^32) and c64 = c (mod 2^32) for the 64-bit clock that
+   N2kMillis64 reconstructs from its roll counter (SyncOffset and the heartbeat NextTime move by c64; statement 5 shows that the
+   reconstruction advances with the true time as long as it is called once per 2^32 - 1 ms; a fresh process starts its roll counter
+   at 0 at every origin).  The proof would repeat Proofs/ClockProofsNode1..3 with the 32-bit leaf lemmas of statement 1.  The 32-bit build
+   is covered by the metamorphic runs of tools/p_C13.py, which classify the runs that arm a timer at the sentinel and check the
+   one-millisecond bound on directed cases. *)
